@@ -6,7 +6,7 @@
        through the contract checkers of Analysis/Pipeline.v. *)
 From Coq Require Import ZArith List Bool.
 From Bluge Require Import Base.Res Base.Corr Base.UTF8 Gen.ParamsAnalysis
-  Analysis.Pipeline Analysis.Tokenizers Analysis.Filters Analysis.Filters2 Analysis.CharFilters Analysis.Freq.
+  Analysis.Pipeline Analysis.Tokenizers Analysis.Filters Analysis.Filters2 Analysis.CharFilters Analysis.Freq Analysis.Merge.
 From Bluge Require Export Analysis.ByteNames.
 Import ListNotations.
 Open Scope Z_scope.
@@ -19,6 +19,9 @@ Definition obounds := (Z * Z * Z)%type.
 Definition of_bounds (b : obounds) : token := let '(s, e, i) := b in Tk s e [] i 0 false.
 Definition bounds_okb (L : Z) (bs : list obounds) : bool := tok_okb L (map of_bounds bs).
 Definition bounds_of (ts : tstream) : list obounds := map (fun t => (t_start t, t_end t, t_incr t)) ts.
+
+(* observed TokenFreq with the FieldVal of every location: term, (field, (start, end, position)), frequency *)
+Definition ofreqf := (list Z * list (list Z * (Z * Z * Z)) * Z)%type.
 
 Inductive acase :=
 (* --- contract checker on recorded stages --- *)
@@ -61,7 +64,10 @@ Inductive acase :=
 | CKeywordAn (input : list Z) (out : tstream)
 (* --- analysis.TokenFrequency / Document.Analyze --- *)
 | CFreq (ts : tstream) (tv : bool) (start : Z) (out : list ofreq) (pos : Z)
-| CDoc (fs : list field) (out : list (option (list ofreq))).
+| CDoc (fs : list field) (out : list (option (list ofreq)))
+(* TokenFrequencies.MergeAll: sources = (field name, tokens, with locations?, start offset), merged in
+   this order into an empty map; observed: the merged map and every source map after all merges *)
+| CMerge (srcs : list (list Z * (tstream * (bool * Z)))) (merged : list ofreqf) (after : list (list ofreqf)).
 
 Definition res_matches (r : res tstream) (o : option tstream) : bool :=
   match r, o with
@@ -105,6 +111,28 @@ Fixpoint stages_ok (L : Z) (prev : list obounds) (rest : list (list obounds)) : 
   end.
 Definition run_ok (input : list Z) (first : tstream) (stages : list (list obounds)) : bool :=
   pure_tokb input first && stages_ok (len input) (bounds_of first) stages.
+
+Fixpoint flocs_eqb (a : list floc) (b : list (list Z * (Z * Z * Z))) : bool :=
+  match a, b with
+  | [], [] => true
+  | x :: a', (f, o) :: b' => zlist_eqb (fl_field x) f && loc_eqb (fl_loc x) o && flocs_eqb a' b'
+  | _, _ => false
+  end.
+Definition fmap_matches (m : fmap) (obs : list ofreqf) : bool :=
+  (length m =? length obs)%nat &&
+  forallb (fun o => let '(term, locs, fr) := o in
+                    match ft_lookup m term with
+                    | Some e => flocs_eqb (ft_locs e) locs && (ft_freq e =? fr)
+                    | None => false
+                    end) obs.
+Fixpoint fmaps_match (ms : list fmap) (obs : list (list ofreqf)) : bool :=
+  match ms, obs with
+  | [], [] => true
+  | m :: ms', o :: obs' => fmap_matches m o && fmaps_match ms' obs'
+  | _, _ => false
+  end.
+Definition merge_sources (srcs : list (list Z * (tstream * (bool * Z)))) : list (list Z * fmap) :=
+  map (fun s => let '(name, (ts, (tv, start))) := s in (name, lift_map (fst (token_frequency ts tv start)))) srcs.
 
 Definition in_set (s : list (list Z)) (x : list Z) : bool := bmem x s.
 Definition in_zset (s : list Z) (x : Z) : bool := existsb (Z.eqb x) s.
@@ -152,6 +180,9 @@ Definition check (c : acase) : bool :=
   | CFreq ts tv start out pos =>
       let '(m, p) := token_frequency ts tv start in tfmap_matches m out && (p =? pos)
   | CDoc fs out => doc_matches (doc_analyze fs) out
+  | CMerge srcs merged after =>
+      let '(m, srcs') := merge_seq [] (merge_sources srcs) in
+      fmap_matches m merged && fmaps_match srcs' after
   end.
 
 Definition mismatches (l : list acase) : list nat := failing check l.
